@@ -31,6 +31,36 @@ def rfc1071(data):
         s = (s & 0xffff) + (s >> 16)
     return (~s) & 0xffff
 
+def raw_sums(data):
+    """unfolded sums of the 16-bit words of `data` (odd byte padded right), read big-endian and read little-endian: the two
+    integers a checksum routine may be folding, depending on the word order it adds in"""
+    if len(data) % 2: data = data + b"\0"
+    be = sum((data[i] << 8) | data[i + 1] for i in range(0, len(data), 2))
+    le = sum(data[i] | (data[i + 1] << 8) for i in range(0, len(data), 2))
+    return be, le
+
+# boundary conditions on an unfolded one's-complement sum S (fold1 = (S >> 16) + (S & 0xffff) is what one folding step leaves)
+SUM_TARGETS = (("double-carry", lambda S: ((S >> 16) + (S & 0xffff)) >= 0x10000),           # the first fold itself overflows: a second fold is needed
+               ("fold1=0x10000", lambda S: ((S >> 16) + (S & 0xffff)) == 0x10000),         # ... by exactly one
+               ("fold1=0xffff", lambda S: ((S >> 16) + (S & 0xffff)) == 0xffff),           # checksum 0x0000 (UDP sends 0xffff)
+               ("fold1=0xfffe", lambda S: ((S >> 16) + (S & 0xffff)) == 0xfffe),           # checksum 0x0001
+               ("low16=0", lambda S: S >= 0x10000 and (S & 0xffff) == 0),                  # only carries left
+               ("low16=0xffff", lambda S: (S & 0xffff) == 0xffff))
+
+def steer(block_with_zero_field, avoid=()):
+    """values v of a 16-bit big-endian field (zero in the given checksummed block, at an even offset) that drive the block's sum to
+    each boundary condition, for both word orders: [(v, 'be|le:condition')]"""
+    be0, le0 = raw_sums(block_with_zero_field)
+    out, seen = [], set()
+    for order, s0 in (("be", be0), ("le", le0)):
+        for name, cond in SUM_TARGETS:
+            for v in range(1, 65536):
+                w = v if order == "be" else ((v & 0xff) << 8) | (v >> 8)
+                if v not in avoid and cond(s0 + w):
+                    if v not in seen: seen.add(v); out.append((v, order + ":" + name))
+                    break
+    return out
+
 def be16(b, i): return (b[i] << 8) | b[i + 1]
 def put16(b, i, v): return b[:i] + bytes([(v >> 8) & 0xff, v & 0xff]) + b[i + 2:]
 
@@ -977,6 +1007,47 @@ class C12(Check):
         for hl in range(5, 16):
             cases.append({"ops": [po(mk(ip_packet(ips, ipd, 17, udp_seg(ips, ipd, 1000, 2000, b"abc"), options=bytes([1]) * (4 * (hl - 5)))), sel_acts)], "wf": True, "canon": True})
             cases.append({"ops": [po(mk(ip_packet(ips, ipd, 6, tcp_seg(ips, ipd, 1000, 80, 1, 2, 0, 0x18, 100, 0, bytes([1]) * (4 * (hl - 5)), b"hello"))), sel_acts)], "wf": True, "canon": True})
+        # (t) checksums at the boundaries of the one's-complement sum (item 6): for every header that carries a checksum, a free 16-bit
+        #     field — the rewritten port / address half, or a field of the frame (IP id, TCP window, ICMP sequence, a payload word) —
+        #     is steered so that the sum of the EMITTED header / segment needs a second carry fold, folds to exactly 0x10000, 0xffff
+        #     (checksum 0: UDP's 0xffff), 0xfffe, or has no low bits left — in big-endian and in little-endian word order
+        pseudo = lambda proto, seg: ips + ipd + bytes([0, proto]) + struct.pack("!H", len(seg))
+        ethh = lambda pay, tag=None: eth_frame(bytes.fromhex("66778899aabb"), bytes.fromhex("001122334455"), 0x0800, pay, tag).hex()
+        o2 = [out1(2), out1(P_CONTROLLER)]
+        data9 = bytes(range(1, 10))
+        # UDP: the rewritten destination / source port
+        useg0 = struct.pack("!HHHH", 1000, 0, 8 + len(data9), 0) + data9
+        for v, why in steer(pseudo(17, useg0) + useg0, avoid=UDP_SPECIAL):
+            cases.append({"ops": [po(ethh(ip_packet(ips, ipd, 17, udp_seg(ips, ipd, 1000, 2000, data9))), [{"a": "set_tp_dst", "v": v}] + o2)], "why": "udp dport " + why, "wf": True, "canon": True})
+        useg0 = struct.pack("!HHHH", 0, 2000, 8 + len(data9), 0) + data9
+        for v, why in steer(pseudo(17, useg0) + useg0, avoid=UDP_SPECIAL):
+            cases.append({"ops": [po(ethh(ip_packet(ips, ipd, 17, udp_seg(ips, ipd, 7, 2000, data9)), 0x2005), [{"a": "set_tp_src", "v": v}] + o2)], "why": "udp sport " + why, "wf": True, "canon": True})
+        # TCP: the rewritten source port; and the window of the frame under a fixed destination-port rewrite
+        tseg = lambda sp, dp, win: tcp_seg(ips, ipd, sp, dp, 0x01020304, 0x0a0b0c0d, 0, 0x18, win, 0, b"", b"hello")
+        t0 = put16(tseg(0, 80, 8192), 16, 0)
+        for v, why in steer(pseudo(6, t0) + t0):
+            cases.append({"ops": [po(ethh(ip_packet(ips, ipd, 6, tseg(1000, 80, 8192))), [{"a": "set_tp_src", "v": v}] + o2)], "why": "tcp sport " + why, "wf": True, "canon": True})
+        t0 = put16(tseg(1000, 4444, 0), 16, 0)
+        for v, why in steer(pseudo(6, t0) + t0):
+            cases.append({"ops": [po(ethh(ip_packet(ips, ipd, 6, tseg(1000, 80, v))), [{"a": "set_tp_dst", "v": 4444}] + o2)], "why": "tcp window " + why, "wf": True, "canon": True})
+        # IPv4 header: the low half of a rewritten address; and the id of the frame under a ToS rewrite; L4 checksum through the address
+        iph = lambda src, dst, proto, n, tos=0, ident=0: put16(ip_packet(src, dst, proto, bytes(n), tos=tos, ident=ident)[:20], 10, 0)
+        for v, why in steer(iph(ips, bytes([192, 168, 0, 0]), 17, 8 + len(data9))):
+            cases.append({"ops": [po(ethh(ip_packet(ips, ipd, 17, udp_seg(ips, ipd, 1000, 2000, data9))), [{"a": "set_nw_dst", "v": 0xc0a80000 | v}] + o2)], "why": "ip dst " + why, "wf": True, "canon": True})
+        for v, why in steer(iph(ips, ipd, 6, 25, tos=0xb8)):
+            cases.append({"ops": [po(ethh(ip_packet(ips, ipd, 6, tseg(1000, 80, 8192), ident=v)), [{"a": "set_nw_tos", "v": 0xb8}] + o2), po(ethh(ip_packet(ips, ipd, 6, tseg(1000, 80, 8192), tos=0xb8, ident=v)), o2)],
+                          "why": "ip id " + why, "wf": True, "canon": True})
+        t0 = put16(tseg(1000, 80, 8192), 16, 0); newsrc = bytes([172, 16, 0, 0])
+        for v, why in steer(newsrc + ipd + bytes([0, 6]) + struct.pack("!H", len(t0)) + t0):
+            cases.append({"ops": [po(ethh(ip_packet(ips, ipd, 6, tseg(1000, 80, 8192)), 0xe00a), [{"a": "set_nw_src", "v": 0xac100000 | v}] + o2)], "why": "tcp pseudo src " + why, "wf": True, "canon": True})
+        # ICMP echo: the sequence number of the frame (the ICMP checksum is recomputed on every emission), plain and with an address rewrite
+        for v, why in steer(bytes([8, 0, 0, 0]) + struct.pack("!HH", 0x1234, 0) + data9):
+            fr = ethh(ip_packet(ips, ipd, 1, icmp_msg(8, 0, struct.pack("!HH", 0x1234, v) + data9)))
+            cases.append({"ops": [po(fr, o2), po(fr, [{"a": "set_nw_src", "v": 0x0a090909}] + o2)], "why": "icmp seq " + why, "wf": True, "canon": True})
+        # UDP: a payload word of the frame, plain output (frames whose own checksum already sits at the boundary)
+        for v, why in steer(pseudo(17, bytes(18)) + struct.pack("!HHHH", 1000, 2000, 18, 0) + bytes(2) + data9[:8]):
+            fr = ethh(ip_packet(ips, ipd, 17, udp_seg(ips, ipd, 1000, 2000, struct.pack("!H", v) + data9[:8])))
+            cases.append({"ops": [po(fr, o2), {"op": "flow", "in_port": None, "acts": [out1(P_FLOOD)]}, {"op": "rx", "port": 1, "data": fr}], "why": "udp payload " + why, "wf": True, "canon": True})
         # (s) a flow_mod whose actions include a type without handler (C13-4: refused with BAD_ACTION/BAD_TYPE and not installed; without the
         #     pre-check: installed, processing stops at that action) — first / middle / last, then traffic, then a good entry behind it
         ven = {"a": "vendor", "v": 7}
